@@ -64,6 +64,35 @@ DESC = {
  "C19-m3": ("`GcSliceWithHeaderBuilder::assume_init` loses `unsafe`", "only a program that calls it without `unsafe` sees it"),
  "C20-m1": ("`contains` compares slot contents instead of set identity", "arena dropped with a live handle, another arena allocates at the recycled address and stashes at the same slot index"),
  "C20-m2": ("a thread-local \"teardown\" flag makes `DynamicRoot::drop` skip releasing its slot", "a handle of arena B owned by a value in the heap of arena A; A is dropped"),
+ "C02b-m1": ("sweep cursor not initialised on the `start_sweeping()` path", "`start_sweeping()`, then an object marked and unlinked in the same mark phase"),
+ "C02b-m2": ("a released weak-pointer shell is unlinked but never freed or uncounted", "value dies while weakly held, weak pointer dropped, a full cycle"),
+ "C02b-m3": ("a recycled `DynamicRootSet` slot starts with `ref_count: 1`", "stash, drop all handles, stash into the reused slot, drop all handles"),
+ "C05b-m1": ("`DynCollect`'s `TraceWrap` forwards weak pointers as strong", "a `GcWeak` behind a `dyn` trait object traced through `dyn_collect!`"),
+ "C05b-m2": ("`forward_barrier_weak` active in every phase but Sleep", "weak forward barrier while Sweeping, then `upgrade` of the (reachable) target in the same sweep"),
+ "C05b-m3": ("`trace` does not queue an object that is already `WhiteWeak`", "weak edge traced before the strong edge in the same cycle, traceable target (3 objects)"),
+ "C07b-m1": ("`resurrect` only revives weakly-marked objects", "resurrecting a plain-white dead object: the strong child of a dead weak target"),
+ "C07b-m2": ("`forward_barrier` active in every phase but Sleep", "forward barrier while Sweeping, stale mark in the next cycle's `MarkedArena`"),
+ "C07b-m3": ("`try_map_root` lost its root barrier", "`try_map_root` while Marked with a new root holding a white pointer"),
+ "C08b-m1": ("`root_needs_trace` cleared before the root is traced (`mem::take`)", "a caught panic from the root's own `trace`"),
+ "C08b-m2": ("\"hold at sweep\" guard also requires a non-empty cursor", "Sweeping with the cursor past the end; `finish_marking` / `mark_debt` / `start_sweeping`"),
+ "C08b-m3": ("`start_sweeping` made debt-driven", "`start_sweeping` with zero allocation debt"),
+ "C09b-m1": ("weak shells whose value dies this cycle are not counted as survivors", "many weak targets dying in the cycle before the measured sleep"),
+ "C09b-m2": ("marking credited twice for weak-then-strong tracing", "a weak index traced before the owning container, debt-driven stepping"),
+ "C09b-m3": ("carried debt computed against the *new* sleep allowance", "heap shrank or grew between non-atomic cycles"),
+ "C10b-m1": ("marking credited twice for weak-then-strong tracing", "forward barrier on a child obtained via `upgrade` (already weakly marked)"),
+ "C10b-m2": ("credit formula rewritten as `(dropped - freed) * drop + …`", "a dead shell freed in a later cycle than the one that dropped its value"),
+ "C10b-m3": ("`total_gcs == 0 => 0.0` early-out removed from `allocation_debt`", "artificial or carried debt on an arena without allocations"),
+ "C14b-m1": ("`Slots::add` returns the last index on slot reuse", "stash A, B; drop A; stash D; drop D"),
+ "C14b-m2": ("`contains` checks the slot table instead of set identity", "two sets in one arena holding the same object at the same slot index"),
+ "C14b-m3": ("`DynamicRoot::drop` returns early while the thread is panicking", "a handle dropped during a caught unwind"),
+ "C17b-m1": ("`META_HEADER_LAYOUT` without `pad_to_align()`", "per-value metadata with alignment >= 32"),
+ "C17b-m2": ("block size padded on request but not on release", "a value whose offset + size is not a multiple of the block alignment (`Gc<u8>`)"),
+ "C18b-m1": ("`copy_slice` length check by byte size", "zero-sized `Copy` elements with a source of the wrong length"),
+ "C18b-m2": ("slice builder `Drop` returns early for plain-data slices (skipping the free)", "abandoned `GcStrBuilder` / plain-data slice builder past the header stage"),
+ "C18b-m3": ("plain `GcSliceBuilder::write_slice_with` no longer updates `init_length`", "constructor panic after k >= 1 elements with a destructor"),
+ "C20b-m1": ("`GcWeak::upgrade` accepts a `Mutation` of any brand", "nested `mutate` on two arenas: upgrade arena A's weak pointer with arena B's context"),
+ "C20b-m2": ("`unsize!` impl for `Gc` gets a free output lifetime", "nested callbacks: re-brand a pointer through `unsize!` and store it in the other arena"),
+ "C20b-m3": ("root-set identity = address of the set's own allocation", "arena dropped, a new set in another arena lands on the same address, stale handle presented"),
 }
 
 verdicts = json.load(open(sys.argv[1])) if len(sys.argv) > 1 and os.path.exists(sys.argv[1]) else {}
